@@ -84,6 +84,12 @@ def ops_pieces():
            R('const auto ci = j_[i];', 'const unsigned ci = j_[i];', n=1, why="auto -> the element type"),
            R('std::partial_sum(p.begin(), p.end(), p.begin());', 'partial_sum_inplace(p);', n=1, why="iterator-range algorithm -> stub with the standard semantics (iterators are positions in the stub)"),
            R('SymEngine::conjugate(', 'field_conjugate(', n=1, why="conjugate of an exact real number is the identity in the field model")]),
+        P(r'void CSRMatrix::conjugate\(MatrixBase &result\) const',
+          [R('void CSRMatrix::conjugate(MatrixBase &result) const', 'void CSRMatrix::conjugate(CSRMatrix &result) const', n=1, why="MatrixBase& -> the stub class (no inheritance in stubs); is_a/down_cast become the identity below"),
+           R('is_a<CSRMatrix>(result)', 'true', n=1, why="the harness passes a CSRMatrix"),
+           R('auto &r = down_cast<CSRMatrix &>(result);', 'CSRMatrix &r = result;', n=1, why="auto& and down_cast on the stub class"),
+           R('SymEngine::conjugate(', 'field_conjugate(', n=1, why="conjugate of an exact real number is the identity in the field model"),
+           R('std::vector<unsigned> p(p_), j(j_);', 'uvec p(p_); uvec j(j_);', n=1, why="two declarators of the stub vector type")]),
         P(r'void csr_diagonal\(const CSRMatrix &A, DenseMatrix &D\)'),
         P(r'void csr_scale_rows\(CSRMatrix &A, const DenseMatrix &X\)'),
         P(r'void csr_scale_columns\(CSRMatrix &A, const DenseMatrix &X\)'),
@@ -95,7 +101,7 @@ def ops_pieces():
 def ops_unit(tier):
     shapes = [(2, 3, 6)] if tier == 'quick' else [(2, 3, 6), (3, 3, 6), (3, 2, 6)]
     ents = []
-    hs = ['h_get', 'h_set', 'h_set_twice', 'h_sum_duplicates', 'h_from_coo', 'h_transpose', 'h_diagonal', 'h_scale', 'h_binop']
+    hs = ['h_conjugate', 'h_get', 'h_set', 'h_set_twice', 'h_sum_duplicates', 'h_from_coo', 'h_transpose', 'h_diagonal', 'h_scale', 'h_binop']
     for nr, nc, nnz in shapes:
         for h in hs:
             cap = 9
@@ -110,7 +116,7 @@ def ops_unit(tier):
                 trusted=["field prelude prelude/field.h (entries are elements of GF(3): exact add/sub/mul and is_zero)",
                          "contracts/C25/csr_prelude.h: std::vector<unsigned> / vec_basic stubs with position iterators, std::swap, std::partial_sum, DenseMatrix get/set",
                          "csr_sort_indices is NOT under contract (lambda passed to std::sort): replaced by its assumed contract, realised by an insertion sort"],
-                assumptions=["symbolic (non-numeric) entries where is_zero is indeterminate, jacobian, csr_matmat_pass1/2 (unused in the library) and CSRMatrix::eq/conjugate are not covered",
+                assumptions=["symbolic (non-numeric) entries where is_zero is indeterminate, jacobian, csr_matmat_pass1/2 (unused in the library) and CSRMatrix::eq are not covered",
                              "sizes beyond the stated bound"])
 
 
